@@ -51,10 +51,10 @@ func (d DG) bytes() []byte { return payload(d.Seed, d.Len) }
 type UDPCase struct {
 	Records     []DG   `json:"records"`       // tunnel -> UDP, reference-encoded
 	Cut         int    `json:"cut"`           // the tunnel stream ends after this many bytes (-1: after the last record)
-	End         string `json:"end"`           // eof | err
+	End         string `json:"end"`           // eof | err (generic error) | timeout (permanent, Timeout()==true) | deadline (os.ErrDeadlineExceeded); errors repeat on every Read
 	Chunks      []int  `json:"chunks"`        // read chunking of the tunnel stream (0 = a (0,nil) read)
 	Fixed       int    `json:"fixed"`         // chunk size after the listed ones (0 = rest at once)
-	EOFWithLast bool   `json:"eof_with_last"` // final bytes returned together with the end (only when the end is not gated)
+	EOFWithLast bool   `json:"eof_with_last"` // final bytes returned together with the end (EOF or error)
 	Dgrams      []DG   `json:"dgrams"`        // UDP -> tunnel
 	// Mode: what the UDP side does.
 	//  idle  nothing arrives, the relay is blocked in udpSide.Read when the tunnel ends
@@ -133,6 +133,7 @@ type tunSide struct {
 	out           []byte
 	closed        atomic.Int32
 	h             *hub
+	holdAll       bool // nothing is served before the gate opens
 	// containment of a relay goroutine that does not stop reading after the end
 	killed atomic.Bool
 	parked atomic.Bool
@@ -150,6 +151,9 @@ func (s *tunSide) Read(p []byte) (int, error) {
 	end := s.endErr
 	if end == nil {
 		end = io.EOF
+	}
+	if s.holdAll && !s.released.Load() {
+		<-s.gate
 	}
 	if s.cr.Consumed() < s.total {
 		n, err := s.cr.Read(p)
@@ -294,7 +298,9 @@ func runUDP(c *UDPCase) (fail *failure, class string, nt bool, sig string) {
 	cc := cutClass(ends, cut)
 	mid := cc != "boundary"
 	end := c.End
-	if end != "err" {
+	switch end {
+	case "err", "timeout", "deadline":
+	default:
 		end = "eof"
 	}
 	mode := c.Mode
@@ -330,10 +336,13 @@ func runUDP(c *UDPCase) (fail *failure, class string, nt bool, sig string) {
 	baseline, _ := relayGoroutines()
 	h := newHub()
 	ts := &tunSide{total: cut, gate: make(chan struct{}), h: h}
-	ts.cr = vkit.ChunkReader{Data: stream[:cut], Chunks: c.Chunks, Fixed: c.Fixed, EOFWithLast: c.EOFWithLast && !gated}
-	if end == "err" {
-		ts.endErr = errInjected
-		ts.cr.Err = errInjected
+	ts.cr = vkit.ChunkReader{Data: stream[:cut], Chunks: c.Chunks, Fixed: c.Fixed, EOFWithLast: c.EOFWithLast}
+	// when the end travels with the last bytes and must not arrive before the relay has
+	// forwarded the UDP side's datagrams, the whole tunnel stream is held back until then
+	ts.holdAll = gated && c.EOFWithLast
+	if end != "eof" {
+		ts.endErr = errOfKind(end, errInjected) // "err" is the generic kind
+		ts.cr.Err = ts.endErr
 	}
 	tunnel, _ := iocopy.NewReadWriteCloser(ts, ts, func() error { ts.closed.Add(1); return nil })
 
@@ -528,7 +537,7 @@ func runUDP(c *UDPCase) (fail *failure, class string, nt bool, sig string) {
 	if completions != 1 {
 		return failf("C12/udp/oncomplete", "OnComplete ran %d times", completions), "", false, ""
 	}
-	if end == "err" && res.ReceiveError == nil {
+	if end != "eof" && res.ReceiveError == nil {
 		return failf("C12/udp/tunnel-error-not-reported", "the tunnel read failed with a transport error at offset %d, Result.ReceiveError is nil", cut), "", false, ""
 	}
 	if f := leakAfter(baseline); f != nil {
@@ -558,7 +567,7 @@ func runUDP(c *UDPCase) (fail *failure, class string, nt bool, sig string) {
 			break
 		}
 	}
-	if c.EOFWithLast && !gated {
+	if c.EOFWithLast && cut > 0 {
 		vkit.Class("udp-feat:data-with-end")
 	}
 	type sg struct {
@@ -731,7 +740,7 @@ func genUDP(t *rapid.T) *UDPCase {
 	if c.Cut >= 0 {
 		total = c.Cut
 	}
-	c.End = rapid.SampledFrom([]string{"eof", "eof", "err"}).Draw(t, "end")
+	c.End = rapid.SampledFrom([]string{"eof", "eof", "err", "timeout", "deadline"}).Draw(t, "end")
 	genChunks(t, c, ends, total)
 	c.Mode = rapid.SampledFrom([]string{"idle", "idle", "idle", "eof", "eof", "eof", "eof", "open", "open", "race"}).Draw(t, "mode")
 	c.FeedFirst = rapid.Bool().Draw(t, "feedFirst")
@@ -760,7 +769,7 @@ func TestUDPRelay(t *testing.T) {
 }
 
 // TestUDPEveryCut enumerates EVERY cut offset of small record streams (<= 200 bytes), with
-// both endings, once with the UDP side idle and once with the UDP side already ended.
+// all four endings (EOF, generic error, permanent timeout-class error, deadline error), once with the UDP side idle and once with the UDP side already ended.
 func TestUDPEveryCut(t *testing.T) {
 	resetSlowBudget()
 	allRun := true
@@ -786,7 +795,7 @@ func TestUDPEveryCut(t *testing.T) {
 		genChunks(t, &base, ends, len(stream))
 		dg := genDGs(t, "dg", 0, 3, false)
 		for cut := 0; cut <= len(stream); cut++ {
-			for _, end := range []string{"eof", "err"} {
+			for _, end := range []string{"eof", "err", "timeout", "deadline"} {
 				for _, mode := range []string{"idle", "eof"} {
 					c := base
 					c.Cut, c.End, c.Mode = cut, end, mode
@@ -804,7 +813,7 @@ func TestUDPEveryCut(t *testing.T) {
 		}
 		vkit.AddExtra("udp_streams_with_every_cut_offset", 1)
 	})
-	vkit.Exhaustive("udp:every-cut-offset-of-each-drawn-stream(<=200B) x {eof,err} x {udp idle, udp ended}", allRun)
+	vkit.Exhaustive("udp:every-cut-offset-of-each-drawn-stream(<=200B) x {eof,err,timeout,deadline} x {udp idle, udp ended}", allRun)
 }
 
 var exclCount atomic.Int64
